@@ -250,15 +250,11 @@ Section Tree.
     map (fun r => if existsb (Nat.eqb r) set then n1 else n0) (seq 0 R).
   Definition balance_sets (keys labels : list string) (remaining : bool) : list (list nat) :=
     labelled_sets keys labels ++ (if remaining then [unlabelled_set keys labels] else []).
-  (* what the documentation describes: one balancing constraint per set and slot, over that set's rows *)
-  Definition label_cons_doc (R n : nat) (sets : list (list nat)) (is_eq : bool) (sign : A) : list (con A) :=
+  (* one balancing constraint per set and slot, over that set's rows (col_jac bound per closure since the fix) *)
+  Definition label_cons (R n : nat) (sets : list (list nat)) (is_eq : bool) (sign : A) : list (con A) :=
     flat_map (fun set => map (fun i =>
       {| c_eq := is_eq; c_fun := fun s => sign * vsum (vmul (col i (reshape R n s)) (indicator R set)); c_jac := None |})
       (seq 0 n)) sets.
-  (* what the code does NOW: the closure captures the loop variable col_jac late, so every constraint, whatever
-     set it was created for, reads the rows of the LAST set (subbalanceddeviceset.py, `lambda s, i=i:`). *)
-  Definition label_cons (R n : nat) (sets : list (list nat)) (is_eq : bool) (sign : A) : list (con A) :=
-    label_cons_doc R n (map (fun _ => last sets []) sets) is_eq sign.
 
   (* MFDeviceSet: wrapped constraints on the column sum, Jacobian tiled once per conduit *)
   Definition mf_wrap (k n : nat) (c : con A) : con A :=
